@@ -509,14 +509,21 @@ def do_check(pid, tier, seed):
                 # fresh terminal, probe battery on both - recorded and judged by the trace specification
                 probes = ["\x1b[1;1HX", "\n", "\x1b[999;1H\nY", "\x1b[1;999Hab", "\x0eaq\x0fq", "\r\t\tT", "\x1b8P",
                           "\u009b?1047h\x1b8Q", "\u009b?1047lR", "abc", "\r\n", "m", ";5H", "\x1b\\"]
-                rp = os.path.join(wd, "dump-paths-%s.replay.ndjson" % m["cfg"])
                 k = 0
                 stride = max(1, n // m["dump_paths"])
-                with open(beh) as f, open(rp, "w") as o:
+                CH = 2500                                  # paths per trace file: validated in parallel
+                chunks = []
+                o = None
+                with open(beh) as f:
                     for idx, ln in enumerate(f):
                         if idx % stride:
                             continue
                         b = json.loads(ln)
+                        if k % CH == 0:
+                            if o:
+                                o.close()
+                            chunks.append(os.path.join(wd, "dump-paths-%s-%d.replay.ndjson" % (m["cfg"], len(chunks))))
+                            o = open(chunks[-1], "w")
                         k += 1
                         o.write(json.dumps({"ev": "ep", "id": k, "drv": "C11X"}) + "\n")
                         o.write(json.dumps({"ev": "new", "slot": 1, "cols": b["init"][0], "rows": b["init"][1], "lim": b["init"][2]}) + "\n")
@@ -532,32 +539,39 @@ def do_check(pid, tier, seed):
                             for sl in (1, 2):
                                 o.write(json.dumps({"ev": "fs", "slot": sl, "s": [ord(ch) for ch in p_], "consumed": True}) + "\n")
                             o.write('{"ev":"rel","name":"ObsEq","slots":[1,2]}\n')
-                tr = os.path.join(wd, "dump-paths-%s.trace.ndjson" % m["cfg"])
-                p3 = subprocess.run([HARNESS, "replay", rp, "--out", tr], stdout=subprocess.PIPE, stderr=subprocess.STDOUT, text=True, timeout=600)
-                jobs.append((None, tr, "C11X"))
-                path3, res3, _ = validate((None, tr, "C11X"))
-                events += res3["accepted"]
-                for k_, v_ in res3["counts"].items():
-                    counts[k_] = counts.get(k_, 0) + v_
-                trace_states += res3["states"]
-                drift += len(res3["drift"])
-                viol3, kn3, fo3 = classify(pid, res3, known)
-                foreign += fo3
+                if o:
+                    o.close()
+                djobs = []
+                for rp in chunks:
+                    tr = rp.replace(".replay.ndjson", ".trace.ndjson")
+                    subprocess.run([HARNESS, "replay", rp, "--out", tr], stdout=subprocess.PIPE, stderr=subprocess.STDOUT, text=True, timeout=600)
+                    djobs.append((None, tr, "C11X"))
+                jobs.extend(djobs)
+                with ThreadPoolExecutor(max_workers=tp.get("tlc_parallel", 8)) as ex:
+                    dres = list(ex.map(validate, djobs))
                 model_runs[-1]["dump_paths_checked"] = k
-                for (l, text) in kn3:
-                    known_hits.append((tr, l, text))
-                seen3 = set()
-                for (l, text) in sorted(viol3):
-                    ep = episode_slice(tr, l)
-                    if ep and ep[0] in seen3:
-                        continue
-                    seen3.add(ep[0])
-                    nfail += 1
-                    rpf = os.path.join(wd, "fail-%d.ndjson" % nfail)
-                    with open(rpf, "w") as f:
-                        f.write("\n".join(ep) + "\n")
-                        f.write(json.dumps({"ev": "verdict", "property": pid, "event": len(ep), "text": text}) + "\n")
-                    violations.append((rpf, "state enumerated by TLC (%s): %s" % (m["cfg"], text)))
+                for tr, res3, _ in dres:
+                    events += res3["accepted"]
+                    for k_, v_ in res3["counts"].items():
+                        counts[k_] = counts.get(k_, 0) + v_
+                    trace_states += res3["states"]
+                    drift += len(res3["drift"])
+                    viol3, kn3, fo3 = classify(pid, res3, known)
+                    foreign += fo3
+                    for (l, text) in kn3:
+                        known_hits.append((tr, l, text))
+                    seen3 = set()
+                    for (l, text) in sorted(viol3):
+                        ep = episode_slice(tr, l)
+                        if ep and ep[0] in seen3:
+                            continue
+                        seen3.add(ep[0])
+                        nfail += 1
+                        rpf = os.path.join(wd, "fail-%d.ndjson" % nfail)
+                        with open(rpf, "w") as f:
+                            f.write("\n".join(ep) + "\n")
+                            f.write(json.dumps({"ev": "verdict", "property": pid, "event": len(ep), "text": text}) + "\n")
+                        violations.append((rpf, "state enumerated by TLC (%s): %s" % (m["cfg"], text)))
 
     # ---- 3b. vacuity guard: the predicates this property depends on must actually have been evaluated
     for tag, least in plan.get("requires", {}).items():
